@@ -153,16 +153,16 @@ func (w *Writer) WriteHeader() error {
 	if err0 != nil {
 		return err0
 	}
-	if _, err := w.writer.Write(s); err != nil {
-		return err
-	}
-	if _, err := w.writer.WriteString("\n"); err != nil {
-		return err
-	}
-	if _, err := w.writer.Write(getbytes.FromSliceFloat64(w.ModelInfo.projectors.RawMatrix().Data)); err != nil {
-		return err
-	}
-	if _, err := w.writer.Write(getbytes.FromSliceFloat64(w.ModelInfo.basis.RawMatrix().Data)); err != nil {
+	// The header is assembled into one buffer and handed to the asynchronous writer in a single
+	// Write, which accepts it whole or (queue full) rejects it whole.
+	projectors := getbytes.FromSliceFloat64(w.ModelInfo.projectors.RawMatrix().Data)
+	basis := getbytes.FromSliceFloat64(w.ModelInfo.basis.RawMatrix().Data)
+	buf := make([]byte, 0, len(s)+1+len(projectors)+len(basis))
+	buf = append(buf, s...)
+	buf = append(buf, '\n')
+	buf = append(buf, projectors...)
+	buf = append(buf, basis...)
+	if _, err := w.writer.Write(buf); err != nil {
 		return err
 	}
 	w.headerWritten = true
@@ -175,28 +175,18 @@ func (w *Writer) WriteRecord(recordSamples int32, recordPreSamples int32, framec
 	if len(data) != w.NumberOfBases {
 		return fmt.Errorf("wrong number of bases, have %v, want %v", len(data), w.NumberOfBases)
 	}
-	if _, err := w.writer.Write(getbytes.FromInt32(int32(recordSamples))); err != nil {
-		return err
-	}
-	if _, err := w.writer.Write(getbytes.FromInt32(int32(recordPreSamples))); err != nil {
-		return err
-	}
-	if _, err := w.writer.Write(getbytes.FromInt64(framecount)); err != nil {
-		return err
-	}
-	if _, err := w.writer.Write(getbytes.FromInt64(timestamp)); err != nil {
-		return err
-	}
-	if _, err := w.writer.Write(getbytes.FromFloat32(pretriggerMean)); err != nil {
-		return err
-	}
-	if _, err := w.writer.Write(getbytes.FromFloat32(pretriggerDelta)); err != nil {
-		return err
-	}
-	if _, err := w.writer.Write(getbytes.FromFloat32(residualStdDev)); err != nil {
-		return err
-	}
-	if _, err := w.writer.Write(getbytes.FromSliceFloat32(data)); err != nil {
+	// One Write per record: the asynchronous writer accepts it whole or (queue full) rejects it
+	// whole, so a record is never cut. The buffer is a fresh copy; the queue keeps a reference to it.
+	buf := make([]byte, 0, 36+4*len(data))
+	buf = append(buf, getbytes.FromInt32(int32(recordSamples))...)
+	buf = append(buf, getbytes.FromInt32(int32(recordPreSamples))...)
+	buf = append(buf, getbytes.FromInt64(framecount)...)
+	buf = append(buf, getbytes.FromInt64(timestamp)...)
+	buf = append(buf, getbytes.FromFloat32(pretriggerMean)...)
+	buf = append(buf, getbytes.FromFloat32(pretriggerDelta)...)
+	buf = append(buf, getbytes.FromFloat32(residualStdDev)...)
+	buf = append(buf, getbytes.FromSliceFloat32(data)...)
+	if _, err := w.writer.Write(buf); err != nil {
 		return err
 	}
 	w.recordsWritten++
